@@ -161,6 +161,8 @@ def mk_structure(t, n, strat='MGSR'):
         need = [r * n + c for r in range(n) for c in range(i + 1)]
         obl.append({'kind': 'depends', 'region': 'R', 'cell': i * n + i, 'ns': 'A', 'cells': need})
         obl.append({'kind': 'depends', 'region': 'Q', 'cell': 0 * n + i, 'ns': 'A', 'cells': need})
+    if t == 'f64':   # no double-precision result may be derived through a conversion to single precision (e.g. sqrtf in templated code)
+        obl += [{'kind': 'no_narrowing', 'region': 'Q', 'cells': n * n}, {'kind': 'no_narrowing', 'region': 'R', 'cells': n * n}]
     return Witness('qrstruct_%s_%s_%d' % (t, strat, n), 'qr.' + strat + '.structure', {'type': t, 'n': n, 'strategy': strat}, wit, '', [treg('A', t, [n, n]), treg('Q', t, [n, n], 'out'), treg('R', t, [n, n], 'out')],
                    [{'mod': 'wit', 'fn': '@W@', 'args': ['A', 'Q', 'R']}], obl)
 
